@@ -582,7 +582,22 @@ def verify_function(repo, registry, models_factory, c, base_axioms, options=None
                 st.oblige(f'{c.name}#frame', eq, location=f'{fields.get("__class__", "obj")}#{oid}.{field}')
         return outcome, value
 
-    results = explore(run_path, base_axioms, max_paths=opts.get('max_paths', 3000),
+    def guarded(st):
+        try:
+            return run_path(st)
+        except (PathEnd, Infeasible, Unsupported, PyRaise, ReturnEx, BreakEx, ContinueEx):
+            raise
+        except z3.Z3Exception:
+            raise
+        except (KeyError, AttributeError, IndexError, TypeError, AssertionError) as e:
+            # the contract's view of the data no longer fits the code (a representation changed): the contract cannot be
+            # applied, which is undecided, not a violation and not a checker crash
+            import traceback
+            where = traceback.extract_tb(e.__traceback__)[-1]
+            raise Unsupported(f'the contract does not apply to this code any more ({type(e).__name__}: {e} at '
+                              f'{where.filename.split("/")[-1]}:{where.lineno})')
+
+    results = explore(guarded, base_axioms, max_paths=opts.get('max_paths', 3000),
                       budget_s=opts.get('explore_budget_s', 300))
     rep.paths = len(results)
     rep.assumptions = set()
